@@ -70,3 +70,4 @@ openssl req -x509 -new -key ss_client_role.key -subj "/O=verif/CN=client" -not_b
 rm -f ca1.srl ca2.srl
 ls "$D" | wc -l
 python3 "$(dirname "$0")/two_roles.py"
+python3 "$(dirname "$0")/nul_role.py"
